@@ -90,12 +90,13 @@ class Tt2Sim(SimBase):
     not interpreted."""
     ACK = 0x0A
 
-    def __init__(self, mem, uid=b"\x01\x02\x03\x04\x05\x06\x07"):
+    def __init__(self, mem, uid=b"\x01\x02\x03\x04\x05\x06\x07", version=None):
         SimBase.__init__(self)
         self.mem = mem
         self.sector = 0
         self.sector_pending = False
         self.uid = uid
+        self.version = version      # GET_VERSION answer of NXP products
 
     def nak(self):
         self.mute = True
@@ -132,6 +133,9 @@ class Tt2Sim(SimBase):
             self.log.append(("write", addr))
             self.mem[addr:addr + 4] = new
             return bytearray([self.ACK])
+        if op == 0x60 and len(cmd) == 1 and self.version is not None:
+            self.log.append(("version", 0))
+            return bytearray(self.version)
         if op == 0xC2 and len(cmd) == 2 and cmd[1] == 0xFF:
             if len(self.mem) > 1024:
                 self.sector_pending = True
@@ -139,6 +143,15 @@ class Tt2Sim(SimBase):
             return self.nak()
         self.mute = True
         raise nfc.clf.TimeoutError("unknown command")
+
+
+NXP_PRODUCTS = {
+    # name: (GET_VERSION answer, pages, CC size byte)
+    "NTAG213": (b"\x00\x04\x04\x02\x01\x00\x0F\x03", 45, 0x12),
+    "NTAG215": (b"\x00\x04\x04\x02\x01\x00\x11\x03", 135, 0x3E),
+    "NTAG216": (b"\x00\x04\x04\x02\x01\x00\x13\x03", 231, 0x6D),
+    "MF0UL21": (b"\x00\x04\x03\x01\x01\x00\x0E\x03", 41, 0x10),
+}
 
 
 def tt2_target(uid=b"\x01\x02\x03\x04\x05\x06\x07"):
